@@ -105,7 +105,12 @@ fn index_order(j: &J) -> IndexOrder {
 
 pub fn index_create(j: &J) -> IndexCreateStatement {
     let mut ix = IndexCreateStatement::new();
-    for c in j["calls"].as_array().unwrap() {
+    index_create_apply(&mut ix, &j["calls"]);
+    ix
+}
+
+pub fn index_create_apply(ix: &mut IndexCreateStatement, calls: &J) {
+    for c in calls.as_array().unwrap() {
         let a = c.as_array().unwrap();
         match a[0].as_str().unwrap() {
             "name" => { ix.name(jstring(&a[1])); }
@@ -139,7 +144,6 @@ pub fn index_create(j: &J) -> IndexCreateStatement {
             k => panic!("index call {k}"),
         }
     }
-    ix
 }
 
 fn fk_action(j: &J) -> ForeignKeyAction {
@@ -155,7 +159,12 @@ fn fk_action(j: &J) -> ForeignKeyAction {
 
 pub fn fk_create(j: &J) -> ForeignKeyCreateStatement {
     let mut fk = ForeignKeyCreateStatement::new();
-    for c in j["calls"].as_array().unwrap() {
+    fk_create_apply(&mut fk, &j["calls"]);
+    fk
+}
+
+pub fn fk_create_apply(fk: &mut ForeignKeyCreateStatement, calls: &J) {
+    for c in calls.as_array().unwrap() {
         let a = c.as_array().unwrap();
         match a[0].as_str().unwrap() {
             "name" => { fk.name(jstring(&a[1])); }
@@ -168,7 +177,6 @@ pub fn fk_create(j: &J) -> ForeignKeyCreateStatement {
             k => panic!("fk call {k}"),
         }
     }
-    fk
 }
 
 fn table_fk(j: &J) -> TableForeignKey {
@@ -177,7 +185,12 @@ fn table_fk(j: &J) -> TableForeignKey {
 
 pub fn table_create(j: &J) -> TableCreateStatement {
     let mut t = TableCreateStatement::new();
-    for c in j["calls"].as_array().unwrap() {
+    table_create_apply(&mut t, &j["calls"]);
+    t
+}
+
+pub fn table_create_apply(t: &mut TableCreateStatement, calls: &J) {
+    for c in calls.as_array().unwrap() {
         let a = c.as_array().unwrap();
         match a[0].as_str().unwrap() {
             "table" => { t.table(tableref(&a[1])); }
@@ -196,12 +209,16 @@ pub fn table_create(j: &J) -> TableCreateStatement {
             k => panic!("table create call {k}"),
         }
     }
-    t
 }
 
 pub fn table_alter(j: &J) -> TableAlterStatement {
     let mut t = TableAlterStatement::new();
-    for c in j["calls"].as_array().unwrap() {
+    table_alter_apply(&mut t, &j["calls"]);
+    t
+}
+
+pub fn table_alter_apply(t: &mut TableAlterStatement, calls: &J) {
+    for c in calls.as_array().unwrap() {
         let a = c.as_array().unwrap();
         match a[0].as_str().unwrap() {
             "table" => { t.table(tableref(&a[1])); }
@@ -215,7 +232,6 @@ pub fn table_alter(j: &J) -> TableAlterStatement {
             k => panic!("table alter call {k}"),
         }
     }
-    t
 }
 
 macro_rules! schema_render {
@@ -359,9 +375,120 @@ pub fn render_ddl(st: &J, req: &J) -> J {
     }
 }
 
+fn table_drop(j: &J) -> TableDropStatement {
+    let mut t = TableDropStatement::new();
+    table_drop_apply(&mut t, &j["calls"]);
+    t
+}
+
+fn table_drop_apply(t: &mut TableDropStatement, calls: &J) {
+    for c in calls.as_array().unwrap() {
+        match c[0].as_str().unwrap() {
+            "table" => { t.table(tableref(&c[1])); }
+            "if_exists" => { t.if_exists(); }
+            "restrict" => { t.restrict(); }
+            "cascade" => { t.cascade(); }
+            k => panic!("table drop call {k}"),
+        }
+    }
+}
+
+fn table_rename(j: &J) -> TableRenameStatement {
+    let mut t = TableRenameStatement::new();
+    table_rename_apply(&mut t, &j["calls"]);
+    t
+}
+
+fn table_rename_apply(t: &mut TableRenameStatement, calls: &J) {
+    for c in calls.as_array().unwrap() {
+        t.table(tableref(&c[1]), tableref(&c[2]));
+    }
+}
+
+fn table_truncate(j: &J) -> TableTruncateStatement {
+    let mut t = TableTruncateStatement::new();
+    table_truncate_apply(&mut t, &j["calls"]);
+    t
+}
+
+fn table_truncate_apply(t: &mut TableTruncateStatement, calls: &J) {
+    for c in calls.as_array().unwrap() {
+        t.table(tableref(&c[1]));
+    }
+}
+
+/// rendering on the requested backends; a panic of the renderer is an outcome like any other
+macro_rules! outcomes {
+    ($s:expr, $req:expr) => {{
+        let s = $s;
+        $req["backends"]
+            .as_array()
+            .unwrap()
+            .iter()
+            .map(|b| {
+                std::panic::catch_unwind(std::panic::AssertUnwindSafe(|| match b.as_str().unwrap() {
+                    "mysql" => s.to_string(MysqlQueryBuilder),
+                    "postgres" => s.to_string(PostgresQueryBuilder),
+                    "sqlite" => s.to_string(SqliteQueryBuilder),
+                    b => panic!("backend {b}"),
+                }))
+                .unwrap_or_else(|_| "<panic>".to_string())
+            })
+            .collect::<Vec<String>>()
+    }};
+}
+
+/// C15 on a schema statement: take / clone checked by rendering against independently rebuilt statements
+macro_rules! c15_schema {
+    ($build:ident, $apply:ident, $req:expr) => {{
+        let req = $req;
+        let st = &req["stmt"];
+        let mut q = $build(st);
+        let pre = $build(st);
+        let mut fails: Vec<String> = vec![];
+        match req["c15"].as_str().unwrap() {
+            "take" => {
+                let t = q.take();
+                if outcomes!(&t, req) != outcomes!(&pre, req) { fails.push("taken statement renders differently from the statement before take()".into()); }
+            }
+            opn => {
+                let mut c = q.clone();
+                if outcomes!(&c, req) != outcomes!(&pre, req) { fails.push("clone renders differently from its source".into()); }
+                let extra = json!([req["extra"]]);
+                let mut with_extra = $build(st);
+                $apply(&mut with_extra, &extra);
+                if opn == "clone_then_source" {
+                    $apply(&mut q, &extra);
+                    if outcomes!(&c, req) != outcomes!(&pre, req) { fails.push("a later change to the source shows in the clone".into()); }
+                    if outcomes!(&q, req) != outcomes!(&with_extra, req) { fails.push("source after the change renders differently from the expected statement".into()); }
+                } else {
+                    $apply(&mut c, &extra);
+                    if outcomes!(&q, req) != outcomes!(&pre, req) { fails.push("a later change to the clone shows in the source".into()); }
+                    if outcomes!(&c, req) != outcomes!(&with_extra, req) { fails.push("clone after the change renders differently from the expected statement".into()); }
+                }
+            }
+        }
+        json!({"holds": fails.is_empty(), "fails": fails})
+    }};
+}
+
+fn c15_ddl(req: &J) -> J {
+    match req["stmt"]["k"].as_str().unwrap() {
+        "table_create" => c15_schema!(table_create, table_create_apply, req),
+        "table_alter" => c15_schema!(table_alter, table_alter_apply, req),
+        "table_drop" => c15_schema!(table_drop, table_drop_apply, req),
+        "table_rename" => c15_schema!(table_rename, table_rename_apply, req),
+        "table_truncate" => c15_schema!(table_truncate, table_truncate_apply, req),
+        "index_create" => c15_schema!(index_create, index_create_apply, req),
+        "fk_create" => c15_schema!(fk_create, fk_create_apply, req),
+        k => panic!("c15 schema statement kind {k}"),
+    }
+}
+
 pub fn handle(op: &str, req: &J) -> J {
     match op {
         "render_ddl" => render_ddl(&req["stmt"], req),
+        "c15_ddl" => c15_ddl(req),
         "column_type" => {
             // the type name a backend writes for an abstract column type
             let def = json!({"name": "c", "type": req["type"], "specs": req["specs"]});
